@@ -64,6 +64,7 @@ func init() {
 			ruleUploaderFlush(c)
 			ruleFlushOrder(c)
 			rulePackBeforeIndex(c)
+			ruleUploadErrorsPropagate(c)
 			ruleSnapshotAfterUpload(c)
 		},
 		Controls: []Control{
@@ -88,6 +89,7 @@ func init() {
 			ruleListBeforeIndex(c)
 			ruleFlushOrder(c)
 			rulePackBeforeIndex(c)
+			ruleUploadErrorsPropagate(c)
 			ruleSnapshotAfterUpload(c)
 		},
 		Controls: []Control{
@@ -131,6 +133,7 @@ func init() {
 			ruleTypeSeparation(c)
 			ruleForgetBeforeQueue(c)
 			rulePackBeforeIndex(c)
+			ruleUploadErrorsPropagate(c)
 			ruleFlushOrder(c)
 		},
 		Controls: []Control{
